@@ -19,6 +19,8 @@ import (
 type txFile struct {
 	Ok        []bool `json:"ok"`
 	Directive string `json:"directive,omitempty"`
+	// Lead: an ordinary comment line stands in front of the directive (same comment group: still the file header)
+	Lead bool `json:"lead_comment,omitempty"`
 }
 
 type txCase struct {
@@ -30,6 +32,12 @@ type txCase struct {
 	// Checkpoint: file 0 carries the atlas:checkpoint directive and the directory holds an older file
 	// (0_f.sql, recording (99,0)) that a first run must skip. Needs PreJournal.
 	Checkpoint bool `json:"checkpoint,omitempty"`
+	// Checkpoint2: with Checkpoint, an even older checkpoint file (00_ck.sql, recording (98,0)) stands in front:
+	// a first run starts at the LAST checkpoint, this one is never executed
+	Checkpoint2 bool `json:"second_checkpoint,omitempty"`
+	// Salt: when not 0, part of every statement's text (a block comment), so that the per-statement checksums
+	// differ from case to case
+	Salt int `json:"salt,omitempty"`
 }
 
 type mRev struct {
@@ -78,6 +86,8 @@ func (c *txCase) stmtSQL(f, i int, ok bool) string {
 	switch {
 	case !c.PreJournal && f == 0 && i == 0:
 		return "CREATE TABLE IF NOT EXISTS journal (f int, i int);"
+	case ok && c.Salt != 0:
+		return fmt.Sprintf("INSERT INTO journal VALUES (%d, %d) /* %d */;", f, i, c.Salt)
 	case ok:
 		return fmt.Sprintf("INSERT INTO journal VALUES (%d, %d);", f, i)
 	default:
@@ -87,6 +97,9 @@ func (c *txCase) stmtSQL(f, i int, ok bool) string {
 
 func (c *txCase) dirFiles(fixAll bool) []dirFile {
 	var out []dirFile
+	if c.Checkpoint && c.Checkpoint2 {
+		out = append(out, dirFile{"00_ck.sql", "-- atlas:checkpoint\n\nINSERT INTO journal VALUES (98, 0);\n"})
+	}
 	if c.Checkpoint {
 		out = append(out, dirFile{"0_f.sql", "INSERT INTO journal VALUES (99, 0);\n"})
 	}
@@ -96,6 +109,9 @@ func (c *txCase) dirFiles(fixAll bool) []dirFile {
 			b.WriteString("-- atlas:checkpoint\n\n")
 		}
 		if tf.Directive != "" {
+			if tf.Lead {
+				b.WriteString("-- written by hand\n")
+			}
 			b.WriteString("-- atlas:txmode " + tf.Directive + "\n\n")
 		}
 		for i, ok := range tf.Ok {
